@@ -627,7 +627,16 @@ func (p c18) Exec(t *core.Trace) *core.Result {
 		trig := fam + ":" + faultClass(ops)
 		var sawErr bool
 		var worst c18Call
-		pk, pv, loc, st := core.Guard(func() { _, sawErr, worst = c18Walk(bi, img, 64*imgSize, budget) })
+		wbi := bi
+		if bi.OpenUnsized != nil && core.HashStr(fmt.Sprint(ops))&1 == 1 {
+			// every other damaged image is opened without telling its size (size 0, where Read takes that): the
+			// bounds then have to come from the device
+			c := *bi
+			c.Open = bi.OpenUnsized
+			wbi = &c
+			res.Probe("opened-without-size")
+		}
+		pk, pv, loc, st := core.Guard(func() { _, sawErr, worst = c18Walk(wbi, img, 64*imgSize, budget) })
 		res.DevOps += img.St.Reads
 		if pk {
 			if np, ok := pv.(c18NoProgress); ok {
